@@ -11,7 +11,7 @@ from vlib.ref import bip39 as R39
 from vlib.util import call
 
 PROPERTY_ID = "C08"
-OPTIMIZED = ['history', 'os-source-unavailable', 'bit-variation']   # clauses run a second time under `python -O` (assert statements stripped)
+OPTIMIZED = ['history', 'os-source-unavailable', 'bit-variation', 'invalid-master-fault']   # clauses run a second time under `python -O` (assert statements stripped)
 RULE = ("histories of up to 30 steps over {reseed(s) of the process-wide PRNG, new(api, words), reseed-pair(s, api, "
         "words)} with api in {BaseWallet.new_wallet, PaperWallet.new_wallet, BaseWallet.from_entropy_bits, "
         "mnemonic_from_entropy_bits, CLI 'new'} and words in {12,15,18,21,24}; os.urandom / random._urandom are wrapped "
@@ -174,6 +174,48 @@ def check_unavailable(case, ctx):
         random.setstate(state)
 
 
+def check_invalid_master(case, ctx):
+    """Fault: the first master-key HMAC ("Bitcoin seed") of the creation yields an invalid key (IL = 0 or IL >= n).
+    The creation may fail; if it hands out a wallet anyway, that wallet's entropy must still come from the OS source:
+    the same creation after the same reseed of the process-wide PRNG must give another wallet."""
+    import os
+    il = {"zero": b"\x00" * 32, "n": (2 ** 256 - 432420386565659656852420866394968145599).to_bytes(32, "big"), "ff": b"\xff" * 32}[case["il"]]
+    state = random.getstate()
+
+    def one():
+        hit = {"n": 0}
+
+        def stub(key, msg):
+            if bytes(key) == b"Bitcoin seed" and hit["n"] == 0:
+                hit["n"] += 1
+                return il + os.urandom(32)
+            return patch.real_prf(key, msg)
+        random.seed(case["seed"])
+        with patch.prf(stub):
+            st_, res = call(create, case["api"], case["words"])
+        return st_, res, hit["n"]
+    try:
+        a = one()
+        b = one()
+    finally:
+        random.setstate(state)
+    if not a[2] or not b[2]:
+        ctx.count("stub-not-consulted (not judged)")
+        ctx.nontrivial = False
+        return
+    if a[0] == "exc" and b[0] == "exc":
+        ctx.count("creation-failed (allowed)")
+        return
+    ctx.count("creation-retried")
+    for st_, res, _ in (a, b):
+        if st_ == "ok":
+            judge_one(case["api"], case["words"], res[0], res[1], "after an invalid first master key")
+    if a[0] == "ok" and b[0] == "ok" and a[1][0] == b[1][0]:
+        raise Violation("C08/repeat/same-wallet-after-reseed[invalid-master-retry]", "%s(%d words): when the first master key "
+                        "is invalid (IL %s) the wallet handed out instead is %r both times after random.seed(%r)"
+                        % (case["api"], case["words"], case["il"], a[1][0], case["seed"]))
+
+
 def clauses():
     return [
         Clause("history", check_history,
@@ -190,6 +232,13 @@ def clauses():
                enum=lambda tier: [{"api": a_, "words": w_, "exc": e_, "seed": 7} for a_ in APIS for w_ in WORDS
                                   for e_ in ("NotImplementedError", "OSError", "BlockingIOError")],
                exhaustive=True, enum_desc="5 apis x 5 lengths x 3 exception kinds", shards={"quick": 8, "thorough": 8}),
+        Clause("invalid-master-fault", check_invalid_master,
+               "fault injection: the first HMAC-SHA512('Bitcoin seed') of a creation returns IL = 0, n or 2^256-1 (invalid "
+               "master key); the creation may fail, but a wallet handed out anyway must differ between two runs that "
+               "follow the same reseed of the process-wide PRNG, and must pass the per-creation checks",
+               enum=lambda tier: [{"api": a_, "words": w_, "il": i_, "seed": 11} for a_ in APIS[:3] + APIS[4:] for w_ in WORDS
+                                  for i_ in ("zero", "n", "ff")],
+               exhaustive=True, enum_desc="4 wallet-creating apis x 5 lengths x 3 invalid IL values", shards={"quick": 8, "thorough": 8}),
         Clause("bit-variation", check_bits,
                "for each api x length: 96 (quick) / 192 (thorough) fresh wallets; every one of the ENT bit positions, "
                "explicitly including bit ENT-1, must be seen as 0 and as 1; no two wallets coincide",
